@@ -20,7 +20,8 @@ LEVEL = "exploration"
 BATCH = 4
 TIMEOUT = 120
 USES_LAB = False
-REQUIRED_OBS = ["names_checked", "adjacent_pairs_checked", "garbage_names_checked", "cfg_default", "cfg_upper_replace", "cfg_custom_symbols", "cfg_upper_G_prefix"]
+REQUIRED_OBS = ["names_checked", "adjacent_pairs_checked", "garbage_names_checked", "cfg_default", "cfg_upper_replace", "cfg_custom_symbols", "cfg_upper_G_prefix",
+                "cfg_elements_only", "configured_tables_unchanged"]
 RULE = ("names rendered from compositions: all ordered pairs of adjacent symbols of the active list with counts 1/2/10+, random "
         "2-4 element formulas, ortho/para/meta and c-/l-/* labels, surface prefixes with group digits, grain symbols with "
         "groups, charges -3..+4, under (a) the default lists, (b) the upper-case list with replacement of the bundled cloud "
@@ -46,6 +47,11 @@ CONFIGS = {
     # occurs inside element symbols (MG), so symbol-vs-prefix precedence matters
     "upper_G_prefix": dict(elements=UPPER, pseudo=UPPER_PSEUDO + ["M"], repl=UPPER_REPL, kwargs=dict(surface_prefix="G"), prefix="G",
                            grain="GRAIN", syms=[e for e in UPPER if e != "E"], labels=[], pre_labels=[], post_labels=[]),
+    # an element list and NO pseudo elements (the bundled 'minimal' example's configuration): the short list is the whole
+    # vocabulary, names that only the default tables know must be rejected
+    "elements_only": dict(elements=["e", "H", "D", "C", "O", "S"], pseudo=[], repl={}, kwargs={}, prefix="#", grain="GRAIN",
+                          syms=["H", "D", "C", "O", "S"], labels=[], pre_labels=[], post_labels=[],
+                          extra_garbage=["HCl", "Mg", "SiO", "oH2", "pH2", "H2*", "HCRP", "#Si", "NH3", "CN", "l-C3H", "HM", "M", "M+"]),
 }
 
 
@@ -133,7 +139,7 @@ def gen_cases(tier):
         specs = gen_specs(r, cfgname, n)
         chunk = 800 if tier == "quick" else 4000
         for i in range(0, len(specs), chunk):
-            cases.append({"config": cfgname, "specs": specs[i:i + chunk], "garbage": GARBAGE if i == 0 else [],
+            cases.append({"config": cfgname, "specs": specs[i:i + chunk], "garbage": (GARBAGE + CONFIGS[cfgname].get("extra_garbage", [])) if i == 0 else [],
                           "grains": i == 0})
     return cases
 
@@ -201,6 +207,13 @@ def run_case(case, ctx):
             if not s.is_grain or g_grp != grp or s.charge != q or s.is_surface or dict(s.element_count) != {gsym: 1}:
                 viol.append(violation("grain_mismatch", f"[{case['config']}] Species({nm!r}): is_grain={s.is_grain} group={s.grain_group} charge={s.charge} "
                                       f"counts={dict(s.element_count)}", name=nm))
+    if cfg["elements"] is not None:
+        # parsing must not alter the configured vocabulary
+        obs["configured_tables_unchanged"] += 1
+        if list(Species.known_elements()) != list(cfg["elements"]) or list(Species.known_pseudoelements()) != list(cfg["pseudo"]):
+            obs["configured_tables_unchanged"] -= 1
+            viol.append(violation("configured_symbol_tables_altered", f"[{case['config']}] after parsing the element / pseudo-element tables are "
+                                  f"{Species.known_elements()} / {Species.known_pseudoelements()}, configured {cfg['elements']} / {cfg['pseudo']}"))
     Species.reset()
     sample = {"config": case["config"], "names": sorted(distinct)[:12], "n": len(distinct)}
     return {"status": "violated" if viol else "held", "violations": viol[:12], "obs": dict(obs), "nontrivial": len(distinct) > 1, "sample": sample,
